@@ -55,6 +55,131 @@ theorem b2b_incr_step (aw : Nat) (b : B2B) (r : AxReq) (k : Nat) (hb : r.burst =
       show ((1 : Nat) == 2) = false from rfl, Bool.false_and]
     rw [e, wrap13_id _ (by omega) (by omega)]
 
+/-! ### burst to beat: WRAP bursts -/
+
+/-- for a wrap container of `2^(j+s)` bytes and beats of `2^s` bytes the mask test of AXIBurst2Beat
+(`(addr & wrap) == wrap` with `wrap = len << size`) fires exactly on the top beat of the container (finite table) -/
+def WrapOK (j s : Nat) : Prop :=
+  ∀ y, y < 2 ^ (j + s) → ((y &&& (2 ^ (j + s) - 2 ^ s)) == (2 ^ (j + s) - 2 ^ s)) = decide (2 ^ (j + s) - 2 ^ s ≤ y)
+
+theorem wrapOK_all : ∀ j, j < 5 → ∀ s, s < 6 → WrapOK j s := by
+  unfold WrapOK; decide +kernel
+
+/-- the mask test on an address inside a container-aligned window only looks at the position inside the container -/
+theorem and_mask_mod (x C m : Nat) (n : Nat) (hC : C = 2 ^ n) (hm : m < C) : x &&& m = (x % C) &&& m := by
+  subst hC
+  have h1 : (x &&& m) % 2 ^ n = x &&& m := Nat.mod_eq_of_lt (Nat.and_lt_two_pow x hm)
+  rw [← h1, Nat.and_mod_two_pow, Nat.mod_eq_of_lt hm]
+
+/-- **WRAP bursts** (2, 4, 8 or 16 beats of up to 32 bytes, start address aligned to the beat size): one beat of the
+address generator.  `a0` = start position inside the container, `y` = position of the
+current beat; the next position is `(y + S) mod C`. -/
+theorem b2b_wrap_step (aw : Nat) (b : B2B) (r : AxReq) (j k : Nat)
+    (hb : r.burst = 2) (hj : j < 5) (hj0 : 0 < j) (hs : r.size % 8 < 6) (hlen : r.len % 256 + 1 = 2 ^ j)
+    (hal : r.addr % 2 ^ (r.size % 8) = 0) (haw : j + r.size % 8 ≤ aw) (hlt : r.addr < 2 ^ aw)
+    (hc : b.count = k) (hk : k < r.len % 256)
+    (ho : b.offset = (((r.addr % 2 ^ (j + r.size % 8) + k * 2 ^ (r.size % 8)) % 2 ^ (j + r.size % 8) : Nat) : Int)
+                      - ((r.addr % 2 ^ (j + r.size % 8) : Nat) : Int)) :
+    (b.step aw r true).count = k + 1 ∧
+    (b.step aw r true).offset = (((r.addr % 2 ^ (j + r.size % 8) + (k + 1) * 2 ^ (r.size % 8)) % 2 ^ (j + r.size % 8) : Nat) : Int)
+                      - ((r.addr % 2 ^ (j + r.size % 8) : Nat) : Int) := by
+  -- names
+  generalize hsdef : r.size % 8 = s at *
+  generalize hLdef : r.len % 256 = L at *
+  have hS : 0 < 2 ^ s := Nat.two_pow_pos _
+  have hCdef : 2 ^ (j + s) = 2 ^ j * 2 ^ s := Nat.pow_add 2 j s
+  have hjs : j + s ≤ 9 := by omega
+  have hC512 : 2 ^ (j + s) ≤ 512 := by
+    calc 2 ^ (j + s) ≤ 2 ^ 9 := Nat.pow_le_pow_right (by decide) hjs
+      _ = 512 := by decide
+  have hL : L = 2 ^ j - 1 := by omega
+  have h2j : 1 ≤ 2 ^ j := Nat.two_pow_pos _
+  have hLS : L * 2 ^ s = 2 ^ (j + s) - 2 ^ s := by
+    rw [hL, hCdef, Nat.sub_mul, Nat.one_mul]
+  have hSleC : 2 ^ s ≤ 2 ^ (j + s) := Nat.pow_le_pow_right (by decide) (by omega)
+  have hwrapv : (L * 2 ^ s) % 4096 = 2 ^ (j + s) - 2 ^ s := by rw [hLS]; exact Nat.mod_eq_of_lt (by omega)
+  have hdvd : 2 ^ s ∣ 2 ^ (j + s) := ⟨2 ^ j, by rw [hCdef, Nat.mul_comm]⟩
+  generalize hCg : 2 ^ (j + s) = C at *
+  generalize hSg : 2 ^ s = S at *
+  generalize ha0 : r.addr % C = a0 at *
+  have hCpos : 0 < C := by omega
+  have ha0lt : a0 < C := by rw [← ha0]; exact Nat.mod_lt _ hCpos
+  have ha0S : a0 % S = 0 := by rw [← ha0, Nat.mod_mod_of_dvd _ hdvd]; exact hal
+  generalize hy : (a0 + k * S) % C = y at *
+  have hylt : y < C := by rw [← hy]; exact Nat.mod_lt _ hCpos
+  have hyS : y % S = 0 := by
+    rw [← hy, Nat.mod_mod_of_dvd _ hdvd, Nat.add_mod, ha0S, Nat.mul_mod_left]; simp
+  -- the next position
+  have hynext : (a0 + (k + 1) * S) % C = (y + S) % C := by
+    rw [← hy, Nat.mod_add_mod]; congr 1; rw [Nat.add_mul, Nat.one_mul]; omega
+  -- the address of this beat
+  obtain ⟨q, hq⟩ : ∃ q, r.addr = q * C + a0 := ⟨r.addr / C, by rw [← ha0, Nat.mul_comm]; exact (Nat.div_add_mod r.addr C).symm⟩
+  have hqC : q * C + C ≤ 2 ^ aw := by
+    obtain ⟨d, hd⟩ : ∃ d, aw = (j + s) + d := ⟨aw - (j + s), by omega⟩
+    have hpw : 2 ^ aw = C * 2 ^ d := by rw [hd, Nat.pow_add, hCg]
+    have hqlt : q < 2 ^ d := by
+      rcases Nat.lt_or_ge q (2 ^ d) with h | h
+      · exact h
+      · have : C * 2 ^ d ≤ q * C := by rw [Nat.mul_comm q C]; exact Nat.mul_le_mul_left _ h
+        omega
+    have : (q + 1) * C ≤ 2 ^ d * C := Nat.mul_le_mul_right _ hqlt
+    rw [Nat.add_mul, Nat.one_mul] at this
+    rw [hpw, Nat.mul_comm C]; exact this
+  have hbeat : beatAddr aw b r = q * C + y := by
+    unfold beatAddr
+    rw [ho, hq]
+    have e : ((q * C + a0 : Nat) : Int) + (((y : Nat) : Int) - ((a0 : Nat) : Int)) = ((q * C + y : Nat) : Int) := by
+      push_cast; omega
+    rw [e, ← Int.natCast_emod, Int.toNat_natCast, Nat.mod_eq_of_lt (by omega)]
+  have hand : (q * C + y) &&& (C - S) = y &&& (C - S) := by
+    rw [and_mask_mod (q * C + y) C (C - S) (j + s) hCg.symm (by omega), Nat.mul_add_mod_self_right, Nat.mod_eq_of_lt hylt]
+  have hwok := wrapOK_all j hj s hs y (by rw [hCg]; exact hylt)
+  rw [hCg, hSg] at hwok
+  have hne : ¬ k = L := by omega
+  refine ⟨?_, ?_⟩
+  · simp [B2B.step, hb, hc, hne, hLdef]; omega
+  · simp only [B2B.step, Bool.not_true, Bool.false_eq_true, if_false, hb, hc, hne, hsdef, hLdef, hbeat, hSg, hwrapv, hand, hwok,
+      beq_iff_eq, beq_self_eq_true, Bool.true_and, Bool.or_true, if_true]
+    rw [hynext]
+    by_cases htop : C - S ≤ y
+    · -- top beat of the container: wrap around
+      have hyeq : y = C - S := by
+        -- y < C, y ≥ C - S, both multiples of S
+        obtain ⟨t, ht⟩ : ∃ t, y = S * t := ⟨y / S, by have := Nat.div_add_mod y S; omega⟩
+        obtain ⟨u, hu⟩ := hdvd
+        have : t < u := by
+          rcases Nat.lt_or_ge t u with h | h
+          · exact h
+          · have : S * u ≤ S * t := Nat.mul_le_mul_left _ h
+            omega
+        have : S * (t + 1) ≤ S * u := Nat.mul_le_mul_left _ (by omega)
+        rw [Nat.mul_add, Nat.mul_one] at this
+        omega
+      have hmod0 : (y + S) % C = 0 := by
+        have hsum : y + S = C := by omega
+        rw [hsum, Nat.mod_self]
+      simp only [htop, decide_true, Bool.and_true, beq_self_eq_true, if_true, hmod0]
+      rw [ho, wrap13_id _ (by push_cast; omega) (by push_cast; omega)]
+      push_cast; omega
+    · have hlt2 : y + S < C := by
+        obtain ⟨t, ht⟩ : ∃ t, y = S * t := ⟨y / S, by have := Nat.div_add_mod y S; omega⟩
+        obtain ⟨u, hu⟩ := hdvd
+        have htu : t + 1 < u := by
+          rcases Nat.lt_or_ge (t + 1) u with h | h
+          · exact h
+          · have : S * u ≤ S * (t + 1) := Nat.mul_le_mul_left _ h
+            rw [Nat.mul_add, Nat.mul_one] at this
+            omega
+        have : S * (t + 2) ≤ S * u := Nat.mul_le_mul_left _ (by omega)
+        rw [Nat.mul_add] at this
+        omega
+      have hfalse : decide (C - S ≤ y) = false := by simpa using htop
+      simp only [hfalse, Bool.and_false, Bool.false_eq_true, if_false, beq_self_eq_true, Bool.or_true, if_true]
+      rw [ho, Nat.mod_eq_of_lt hlt2]
+      have hSi : ((2 : Int) ^ s) = ((S : Nat) : Int) := by rw [← hSg]; simp
+      rw [hSi, wrap13_id _ (by push_cast; omega) (by push_cast; omega)]
+      push_cast; omega
+
 /-- the native command address of a beat: byte address relative to the base, in words -/
 theorem port_addr_def (c : Cfg) (a : Nat) : portAddr c a = ((a - c.base) / 2 ^ c.ashift) % 2 ^ c.paw := rfl
 
